@@ -254,8 +254,192 @@ def job_collapse_y3():
     return {'results': results, 'encoded': loader.ENCODED, 'label': 'collapse y3'}
 
 
+# ------------------------------------------------------------------------------------------------ the solver's collapse loop and Love extraction (call sites / data flow)
+GLUE_STACKS = [[(0, False, False), (0, False, False)], [(0, False, False), (1, True, False), (0, False, False)], [(1, False, False), (0, True, False)], [(0, True, True), (1, False, False), (1, True, False), (0, False, False)]]
+def _solver_blocks():
+    """AST slices of cf_radial_solver: the `for ytype_i` collapse loop and the `for ytype_i` Love-number extraction loop"""
+    src = open(os.path.join(REPO, SOLVER)).read()
+    code, span = pyx2py.translit_function(src, 'cf_radial_solver')
+    tree = ast.parse(code)
+    col = love = None
+    for node in ast.walk(tree):
+        if isinstance(node, ast.For) and getattr(node.target, 'id', None) == 'ytype_i':
+            txt = ast.unparse(node)
+            if 'cf_collapse_layer_solution' in txt:
+                col = node
+            elif 'find_love_cf' in txt:
+                love = node
+    if col is None or love is None:
+        raise RuntimeError('collapse loop / Love extraction of cf_radial_solver not found (harness out of date)')
+    out = []
+    for nm, node in (('collapse loop', col), ('Love-number extraction', love)):
+        seg = ast.unparse(node)
+        loader.ENCODED.append({'file': SOLVER, 'function': 'cf_radial_solver: %s (AST slice)' % nm, 'sha256_16': solve.sha_of(seg)})
+        mod = loader._Rewrite(seg).visit(ast.parse(seg))
+        ast.fix_missing_locations(mod)
+        out.append(compile(mod, 'solver.pyx:%s' % nm, 'exec'))
+    return out
+
+
+def job_collapse_glue(stack):
+    """The collapse loop of cf_radial_solver executed for a concrete stack (bottom -> top, 2 slices per layer, 2 solution types) over symbolic arrays, with recording stubs for the
+    kernels it calls (their own contracts are the surface / interface / collapse obligations): every call site must receive the quantities of the right layer, side and solution type, and
+    the Love-number extraction must read exactly what the collapse wrote for the surface slice of its own solution type."""
+    col_code, love_code = _solver_blocks()
+    real_col, _ = loader.load_pyx(COL, ['cf_collapse_layer_solution'], {})
+    L, SL, NT = len(stack), 2, 2
+    total = L * SL
+    nsols = [nsol(t, st) for (t, st, inc) in stack]
+
+    def arr(name):
+        a = CArr((total,), name)
+        for i in range(total):
+            a.data[i] = Q.sym('%s_%d' % (name, i))
+        return a
+    radius, density, gravity, bulk, shear = arr('r'), arr('rho'), arr('g'), arr('K'), arr('mu')
+    storage = [[[Q.sym('S_%d_%d_%d' % (li, j, k)) for k in range(SL * 2 * nsols[li])] for j in range(nsols[li])] for li in range(L)]
+    nout = MAXY * NT
+    solution = CArr((total * nout,), 'solution')
+    rec = {'surface': [], 'interface': [], 'collapse': [], 'love': []}
+    cNAN = Q.sym('cmplx_NAN')
+
+    def snap(v, n):
+        return [v[i] for i in range(n)]
+
+    def st_surface(cv, info, bc, upp, gs, G, num_sols, maxy, ytype_i, lt, st, inc):
+        vals = [Q.sym('Csurf_t%d_%d' % (ytype_i, j)) for j in range(num_sols)]
+        for j in range(num_sols):
+            cv[j] = vals[j]
+        info.v = 0
+        rec['surface'].append(dict(ytype=ytype_i, upp=[upp[j * maxy + k] for j in range(num_sols) for k in range(2 * num_sols)], gs=gs, num_sols=num_sols, lt=lt, st=st, inc=inc, vals=vals))
+
+    def st_interface(cv, cv_above, upp, g_up, g_above_lo, rho_up, rho_above_lo, lt, lat, st, sat, inc, iat, num_sols, maxy):
+        k = len(rec['interface'])
+        vals = [Q.sym('Cint%d_%d' % (k, j)) for j in range(num_sols)]
+        above = snap(cv_above, 3)
+        for j in range(num_sols):
+            cv[j] = vals[j]
+        rec['interface'].append(dict(upp=[upp[j * maxy + kk] for j in range(num_sols) for kk in range(2 * num_sols)], g_up=g_up, g_above_lo=g_above_lo, rho_up=rho_up, rho_above_lo=rho_above_lo,
+                                     lt=lt, lat=lat, st=st, sat=sat, inc=inc, iat=iat, num_sols=num_sols, above=above, vals=vals))
+
+    def st_collapse(sol, cv, stor, r_ptr, rho_ptr, g_ptr, freq, start_index, layer_slices, num_sols, maxy, num_ys, num_output_ys, ytype_i, lt, st, inc):
+        rec['collapse'].append(dict(cv=snap(cv, num_sols), stor=stor, r0=r_ptr[0], rho0=rho_ptr[0], g0=g_ptr[0], start=start_index, slices=layer_slices, num_sols=num_sols, num_ys=num_ys,
+                                    nout=num_output_ys, ytype=ytype_i, lt=lt, st=st, inc=inc, sol_is=sol is solution or getattr(sol, 'base', None) is solution))
+        real_col['cf_collapse_layer_solution'](sol, cv, stor, r_ptr, rho_ptr, g_ptr, freq, start_index, layer_slices, num_sols, maxy, num_ys, num_output_ys, ytype_i, lt, st, inc)
+
+    def st_love(out, surf, gs):
+        rec['love'].append(dict(surf=snap(surf, MAXY), gs=gs, out=out))
+
+    class Sol:
+        pass
+    solobj = Sol()
+    solobj.complex_love_ptr = CArr((3 * NT,), 'complex_love')
+    env = {'num_ytypes': NT, 'num_layers': L, 'start_index_by_layer_ptr': [li * SL for li in range(L)], 'num_slices_by_layer_ptr': [SL] * L, 'num_solutions_by_layer_ptr': nsols,
+           'radius_array_ptr': radius, 'density_array_ptr': density, 'gravity_array_ptr': gravity, 'bulk_modulus_array_ptr': bulk, 'complex_shear_modulus_array_ptr': shear,
+           'layer_types_ptr': [t for (t, st, inc) in stack], 'is_static_by_layer_ptr': [st for (t, st, inc) in stack], 'is_incompressible_by_layer_ptr': [inc for (t, st, inc) in stack],
+           'main_storage_ptr': storage, 'uppermost_y_per_solution_ptr': CArr((18,), 'uppermost_y'), 'constant_vector_ptr': CArr((3,), 'constant_vector'),
+           'layer_above_constant_vector_ptr': CArr((3,), 'layer_above_constant_vector'), 'bc_pointer': CArr((15,), 'bc'), 'bc_solution_info': pyx2py.Ref(-999),
+           'surface_gravity': Q.sym('surface_gravity'), 'G_to_use': pyx2py.Ref(Q.sym('G')), 'frequency_to_use': pyx2py.Ref(Q.sym('w')), 'MAX_NUM_Y': MAXY, 'solution_ptr': solution,
+           'num_output_ys': nout, 'cmplx_NAN': cNAN, 'NAN': Q.sym('NAN'), 'verbose': False, 'raise_on_fail': False, 'error': False, 'feedback_str': '',
+           'cf_apply_surface_bc': st_surface, 'cf_top_to_bottom_interface_bc': st_interface, 'cf_collapse_layer_solution': st_collapse, 'find_love_cf': st_love,
+           'top_slice_i': total - 1, 'surface_solutions_ptr': CArr((MAXY,), 'surface_solutions'), 'solution': solobj}
+    env.update(pyx2py.RUNTIME)
+    env.update({k: v for k, v in loader.base_ns().items() if k not in env})
+    pyx2py.VIOLATIONS.clear()
+    pyx2py.STRICT[0] = False
+    try:
+        exec(col_code, env)
+        exec(love_code, env)
+    finally:
+        viol = list(pyx2py.VIOLATIONS)
+        pyx2py.STRICT[0] = True
+    tag = ' / '.join(kname(t, st) + ('(inc)' if inc else '') for (t, st, inc) in stack)
+    results = []
+
+    def same(a, b):
+        if a is None or b is None:
+            return z3.BoolVal(a is b)
+        if isinstance(a, (bool, int)) and not isinstance(a, Q) and isinstance(b, (bool, int)):
+            return z3.BoolVal(a == b)
+        return eq_goal(Q.of(a), Q.of(b))
+
+    def rp_love(md):
+        # public-API replay: the Love numbers reported by the real radial_solver for two solution types must be the ones derived from the surface row of ITS OWN result array
+        import subprocess, tempfile, json as _json
+        cfg = {'layers': [['solid', True, False]], 'solve_for': ['tidal', 'loading'], 'nondimensionalize': True}
+        with tempfile.TemporaryDirectory(prefix='verif_c02_') as td:
+            e_ = dict(os.environ)
+            e_['PYTHONPATH'] = REPO
+            p_ = subprocess.run([replay.VENV_PY, os.path.join(solve.VERIF, 'replay', 'c06_replay.py')], input=_json.dumps(cfg), capture_output=True, text=True, cwd=td, env=e_, timeout=900)
+        if '@@RESULT@@' not in p_.stdout:
+            return True, 'real radial_solver crashed: rc=%s %s' % (p_.returncode, p_.stderr[-300:])
+        o_ = _json.loads(p_.stdout.split('@@RESULT@@')[-1])
+        if not o_.get('success'):
+            return False, 'real radial_solver did not succeed on the replay configuration: %r' % o_
+        return o_.get('love_vs_result_surface', 0.0) > 1e-9, 'real radial_solver(solve_for=(tidal, loading)): [k from result[6t+4, -1] - 1, k reported in .love] per type = %r (relative mismatch %r)' % (o_.get('love_rows'), o_.get('love_vs_result_surface'))
+
+    def ob(name, conds, key):
+        rp_ = rp_love if key == 'love-extraction' else (lambda md, name=name: (True, 'call-site data flow of cf_radial_solver (transliterated current solver.pyx): %s' % name))
+        results.append(discharge(Obligation('collapse loop [%s]: %s' % (tag, name), z3.And(*conds) if conds else z3.BoolVal(True), [], with_axioms=False, with_dens=False,
+                                            replay=rp_, key='glue:%s' % key)))
+    ob('runs without leaving declared extents and calls each kernel once per layer and solution type', [z3.BoolVal(not viol), z3.BoolVal(len(rec['surface']) == NT), z3.BoolVal(len(rec['interface']) == NT * (L - 1)),
+                                                                                                    z3.BoolVal(len(rec['collapse']) == NT * L), z3.BoolVal(len(rec['love']) == NT)], 'counts')
+    if len(rec['surface']) == NT and len(rec['interface']) == NT * (L - 1) and len(rec['collapse']) == NT * L and len(rec['love']) == NT:
+        for t in range(NT):
+            top = L - 1
+            s = rec['surface'][t]
+            ny = 2 * nsols[top]
+            conds = [z3.BoolVal(s['ytype'] == t), z3.BoolVal(s['num_sols'] == nsols[top]), z3.BoolVal((s['lt'], s['st'], s['inc']) == stack[top]), same(s['gs'], env['surface_gravity'])]
+            conds += [same(s['upp'][j * ny + k], storage[top][j][(SL - 1) * ny + k]) for j in range(nsols[top]) for k in range(ny)]
+            ob('solution type %d: cf_apply_surface_bc receives the top-of-surface-layer values of every solution, the surface gravity and its own type index' % t, conds, 'surface-call')
+            prev_vals = s['vals']
+            for d in range(1, L):
+                li = L - 1 - d                 # layer being collapsed; li + 1 is the layer above
+                c = rec['interface'][t * (L - 1) + d - 1]
+                ny = 2 * nsols[li]
+                conds = [same(c['g_up'], gravity.data[li * SL + SL - 1]), same(c['g_above_lo'], gravity.data[(li + 1) * SL]), same(c['rho_up'], density.data[li * SL + SL - 1]),
+                         same(c['rho_above_lo'], density.data[(li + 1) * SL]), z3.BoolVal((c['lt'], c['st'], c['inc']) == stack[li]), z3.BoolVal((c['lat'], c['sat'], c['iat']) == stack[li + 1]),
+                         z3.BoolVal(c['num_sols'] == nsols[li])]
+                conds += [same(c['above'][j], prev_vals[j]) for j in range(nsols[li + 1])]
+                conds += [same(c['upp'][j * ny + k], storage[li][j][(SL - 1) * ny + k]) for j in range(nsols[li]) for k in range(ny)]
+                ob('solution type %d, interface below layer %d: cf_top_to_bottom_interface_bc receives gravity/density at the TOP of the lower layer and at the BOTTOM of the layer above, both layer kinds in '
+                   'the right order, the constants of the layer above and the top values of the lower layer' % (t, li + 1), conds, 'interface-call')
+                prev_vals = c['vals']
+            # collapse calls
+            chain = [rec['surface'][t]['vals']] + [rec['interface'][t * (L - 1) + d - 1]['vals'] for d in range(1, L)]
+            for d in range(L):
+                li = L - 1 - d
+                c = rec['collapse'][t * L + d]
+                conds = [z3.BoolVal(c['stor'] is storage[li]), z3.BoolVal(c['start'] == li * SL), z3.BoolVal(c['slices'] == SL), z3.BoolVal(c['num_sols'] == nsols[li]), z3.BoolVal(c['num_ys'] == 2 * nsols[li]),
+                         z3.BoolVal(c['nout'] == nout), z3.BoolVal(c['ytype'] == t), z3.BoolVal((c['lt'], c['st'], c['inc']) == stack[li]), z3.BoolVal(bool(c['sol_is'])),
+                         same(c['r0'], radius.data[li * SL]), same(c['rho0'], density.data[li * SL]), same(c['g0'], gravity.data[li * SL])]
+                conds += [same(c['cv'][j], chain[d][j]) for j in range(nsols[li])]
+                ob('solution type %d, layer %d: cf_collapse_layer_solution receives this layer\'s storage, arrays, constants and flags' % (t, li), conds, 'collapse-call')
+            # Love extraction: the surface values of solution type t
+            lv = rec['love'][t]
+            top = L - 1
+            if stack[top][0] == 0:
+                ny = 6
+                cv = rec['surface'][t]['vals']
+                conds = [same(lv['gs'], env['surface_gravity'])]
+                for y in range(6):
+                    want = Q(0)
+                    for j in range(3):
+                        want = want + cv[j] * storage[top][j][(SL - 1) * ny + y]
+                    got = lv['surf'][y]
+                    conds.append(z3.BoolVal(got is not None))
+                    if got is not None:
+                        conds.append(eq_goal(Q.of(got), want))
+                conds.append(z3.BoolVal(isinstance(lv['out'], Ptr) and lv['out'].base is solobj.complex_love_ptr and lv['out'].off == 3 * t))
+                ob('solution type %d: find_love_cf receives the collapsed y1..y6 of the SURFACE slice of its own solution type (sum_j C_j y_j(top)) and writes slots %d..%d of the Love array' % (t, 3 * t, 3 * t + 2),
+                   conds, 'love-extraction')
+    return {'results': results, 'encoded': loader.ENCODED, 'label': 'collapse glue ' + tag}
+
+
 def main():
     jobs = []
+    for stack in GLUE_STACKS:
+        jobs.append((job_collapse_glue, {'stack': stack}))
     incs = [False, True] if TIER == 'thorough' else [False]
     for (t, s) in [(0, False), (1, False), (1, True)]:
         for inc in incs:
